@@ -300,8 +300,22 @@ func TestDrv_C18(t *testing.T) {
 		gate := make(chan struct{}, 1)
 		pacer := &countPacer{n: 2, gate: gate}
 		results := atk.Attack(vegeta.NewStaticTargeter(vegeta.Target{Method: "GET", URL: "http://shifting.test:8080/"}), pacer, 0, "c18")
+		dnsMu.Lock()
+		q0 := dnsQueries
+		dnsMu.Unlock()
 		<-results
 		first := rec.take()
+		// the answer changes after the refresher has re-resolved the entry once (so that the cache holds the old answer,
+		// freshly confirmed); from then on nobody dials
+		for i := 0; i < 400; i++ {
+			dnsMu.Lock()
+			q := dnsQueries
+			dnsMu.Unlock()
+			if q >= q0+4 {
+				break
+			}
+			time.Sleep(5 * time.Millisecond)
+		}
 		setIPs("10.66.0.2", "10.66.0.3")
 		time.Sleep(1200 * time.Millisecond) // 30 ttls without a dial
 		gate <- struct{}{}
